@@ -16,7 +16,7 @@
      same (inner, vars, levels) as an instance that holds m" (C05_load_state_partial),
      and, composed with L2/L3 (C05_loaded_trie_answers at the end of this file): GetID,
      Get and searchID run over the loaded message return the tree model's answers.
-     Not composed: the scanners (proved over the tree, C04).
+     The scanners likewise (C05_loaded_trie_scans).
    * determinism of the BUILD: the one step that reads unordered data (sortedBMCounts)
      is proved independent of map order and sort algorithm (C05_build_deterministic);
      Marshal being a function of the message is immediate (marshal_gen is a Coq function). *)
@@ -24,6 +24,7 @@ From Coq Require Import List NArith ZArith Bool.
 From Coq.Strings Require Import Byte.
 From Slim Require Import Varint VarintProofs Proto ProtoProofs Semver Frame FrameProofs Instance InstanceProofs Wire WireProofs.
 From Slim Require Import Base Keys Model BitmapRank Flat FlatProofs Msg MsgProofs EndToEnd EndToEndProofs.
+From Slim Require Import Scan ScanMsg EndToEndScan EndToEndScanProofs.
 From Slim Require Bits BuildDetProofs.
 From Coq Require Import Permutation Sorting.Sorted.
 Import ListNotations.
@@ -158,8 +159,7 @@ Proof. vm_compute. reflexivity. Qed.
    exactly the tree model's answers - the answers of the trie that was marshalled.
    [wf_msg (to_wire m)] says that the counts and offsets fit the Go field types (int32 /
    uint32 / uint64) and the body is below 2^63 bytes.  to_wire is the identity on fields.
-   Still PARTIAL for the scanners (NewIter / ScanFrom read the same message and levels;
-   they are proved at L2 over the tree, C04) and for determinism of the build. *)
+   The scanners follow in C05_loaded_trie_scans, determinism of the build at the end. *)
 Theorem C05_loaded_trie_answers :
   forall (Levels : Type) (init_levels : slim -> Levels) (reset_levels : Levels)
          (conv510 : slim -> slim) (conv3 : list byte -> list byte -> list byte -> slim)
@@ -173,6 +173,28 @@ Theorem C05_loaded_trie_answers :
     inst_searchid Levels st' (S fuel) q = Ok (let '(l, e, rr) := searchid T q in (oid l, oid e, oid rr)).
 Proof. exact loaded_answers. Qed.
 Print Assumptions C05_loaded_trie_answers.
+
+(* ... and scans identically: NewIter (every call of the returned closure, also after
+   exhaustion), ScanFrom and ScanFromTo with any callback, run over the loaded instance the
+   way the Go code runs them (ScanMsg.v: getGEPath, newIter, next over node ids, getNode,
+   Rank128 child ids, VLenArray values), equal Scan.v's results on the tree - about which
+   C04 is proved.  (On an incomplete trie both sides are the refusal, Err (EPanic 20).) *)
+Theorem C05_loaded_trie_scans :
+  forall (Levels : Type) (init_levels : slim -> Levels) (reset_levels : Levels)
+         (conv510 : slim -> slim) (conv3 : list byte -> list byte -> list byte -> slim)
+         o keys vals T m vs s (st : inst VarsT Levels) h fuel,
+    build o keys vals = Ok T -> Bits.encode_trie T = Val m -> Bits.init_vars m = Val vs ->
+    wf_msg (to_wire m) = true -> marshal_gen (to_wire m) = Some s ->
+    (trie_height T <= fuel)%nat ->
+    let st' := run compat_gen cur_gen VarsT Levels ivars init_levels reset_levels conv510 conv3 st (h ++ [OpUnmarshal s]) in
+    (forall start incl withv extra,
+       inst_iter_all Levels st' fuel (scan_fuel T) start incl withv extra = iter_all T start incl withv extra) /\
+    (forall start incl withv fn,
+       inst_scan_from Levels st' fuel (scan_fuel T) start incl withv fn = scan_from T start incl withv fn) /\
+    (forall start incl e incle withv fn,
+       inst_scan_from_to Levels st' fuel (scan_fuel T) start incl e incle withv fn = scan_from_to T start incl e incle withv fn).
+Proof. exact loaded_scans. Qed.
+Print Assumptions C05_loaded_trie_scans.
 
 (* the hypotheses hold for a concrete built trie: values of unequal widths, both prefix modes *)
 Definition e2e_keys : list key :=
